@@ -131,7 +131,8 @@ def read(f, name):
 
 def observe(f, kind, with_results):
     out = {}
-    for n in OBS[kind] + (RESULT_OBS if with_results else []):
+    first = ["did_fit"] + (RESULT_OBS if with_results else [])          # results first: a getter that disturbs them must not hide behind the order of this final sweep
+    for n in first + [x for x in OBS[kind] if x not in first]:
         try:
             v = read(f, n)
         except Exception as e:
@@ -239,6 +240,15 @@ def gen(tier, seed):
         else:
             seqs = [s for s in seqs if len(s) == 1 or s[0][0] == "fit" or rng.rand() < 0.3]
             seqs += [tuple(menu[q] for q in rng.randint(0, len(menu), 3)) for _ in range(40)]
+        ax_ = "y" if kind == "xy" else None
+        core = [(("fit",), ("set_all", 0.8)), (("fit",), ("constraint", 0)), (("fit",), ("data", 1)), (("fit",), ("limit", 0)), (("fit",), ("fix", 0, None)), (("constraint", 0), ("fit",)), (("fit",), ("fit",)), (("data", 1), ("fit",), ("set", 1, 0.5))]
+        if kind != "unbinned":
+            rel = ("add", True, "model", 0, ax_)
+            core += [(rel, ("fit",), ("set_all", 0.8)), (rel, ("fit",), ("add", False, "data", 0.5, ax_)), (rel, ("fit",), ("set", 0, 1.0), ("fit",)), (rel, ("fit",), ("disable", 1)), (("fit",), ("add", False, "data", 0.5, ax_)), (("fit",), ("add_matrix",)),
+                     (rel, ("set_all", 0.8), ("fit",), ("constraint", 0))]
+        if kind == "xy":
+            core += [(("add", False, "data", 0, "x"), ("fit",), ("set_all", 0.8)), (("add", False, "data", 0, "x"), ("add", True, "model", 0, "y"), ("fit",), ("set", 0, 1.0))]
+        seqs = core + [s for s in seqs if s not in core]          # the core histories are part of every tier
         for s in seqs:
             ops = base + list(s)
             if not valid(kind, ops):
